@@ -180,6 +180,8 @@ type Net struct {
 	armedF    map[int]*FrameCut
 	DialLog   []DialEvent
 	closed    bool
+	seqMu     sync.Mutex
+	seq       int
 }
 
 // DialEvent is one dial attempt.
@@ -373,6 +375,7 @@ type Link struct {
 
 // WriteRec is one Write call as seen on the wire log.
 type WriteRec struct {
+	Seq      int // global order of writes on the whole network
 	Off, Len int
 	At       time.Duration
 	Who      string
@@ -538,7 +541,7 @@ func (c *Conn) Write(p []byte) (int, error) {
 		hit = true
 	}
 	if len(deliver) > 0 {
-		rec := WriteRec{Off: len(lk.Log[d]), Len: len(deliver), At: lk.n.hooks.Now()}
+		rec := WriteRec{Off: len(lk.Log[d]), Len: len(deliver), At: lk.n.hooks.Now(), Seq: lk.n.nextSeq()}
 		if WriterInfo != nil {
 			rec.Who, rec.Held = WriterInfo()
 		}
@@ -632,6 +635,13 @@ func (lk *Link) Wire(d Dir) []byte {
 	return append([]byte(nil), lk.Log[d]...)
 }
 
+func (n *Net) nextSeq() int {
+	n.seqMu.Lock()
+	defer n.seqMu.Unlock()
+	n.seq++
+	return n.seq
+}
+
 // Dials returns a copy of the dial log.
 func (n *Net) Dials() []DialEvent {
 	n.mu.Lock()
@@ -654,4 +664,11 @@ func (n *Net) Link(i int) *Link {
 		return n.Links[i]
 	}
 	return nil
+}
+
+// WriteLog returns a copy of the write records of direction d.
+func (lk *Link) WriteLog(d Dir) []WriteRec {
+	lk.mu.Lock()
+	defer lk.mu.Unlock()
+	return append([]WriteRec(nil), lk.Writes[d]...)
 }
